@@ -1025,6 +1025,17 @@ class Engine:
             slf = getattr(f, '__self__', None)
             if f.__name__ == 'join' and args and hasattr(args[0], '__pyvc_joined__'):
                 return args[0].__pyvc_joined__(self, slf)
+            if f.__name__ == 'join' and isinstance(slf, str) and args:
+                parts = list(self.iterate(args[0]))
+                if all(isinstance(x, str) and not isinstance(x, Opaque) for x in parts):
+                    return slf.join(parts)
+                if all((isinstance(x, str) and not isinstance(x, Opaque)) or getattr(x, '__pyvc_strlike__', False) for x in parts):
+                    items = []
+                    for i, x in enumerate(parts):          # text with string-like ghost parts: keep the structure
+                        if i:
+                            items.append(slf)
+                        items.append(x)
+                    return FStr(items)
             if isinstance(slf, (list, dict, set)) or (slf is None and f.__name__ != 'join'):
                 # list.append/insert/pop, dict.get, ... : containers are concrete, payloads symbolic
                 if f.__name__ == 'join' and isinstance(slf, (bytes, str)):
@@ -2182,6 +2193,18 @@ class FStr:
 
     def __pyvc_isinstance__(self, cs):
         return str in cs
+
+    def __pyvc_len__(self, eng):
+        total = 0
+        for x in self.items:
+            n = len(x) if isinstance(x, str) else eng.builtin(len, [x], {})
+            total = eng.binop(ast.Add(), total, n)
+        return total
+
+    def __pyvc_truth__(self, eng):
+        if any(isinstance(x, str) and x for x in self.items):
+            return True
+        raise Unsupported('emptiness of a text with ghost parts')
 
 
 class IntStr:
